@@ -23,6 +23,8 @@ THEOREMS = [
     "VK.C09_status_eliminated",
     "VK.C09_status_remaining",
     "VK.C09_status_never_listed",
+    "VK.C09_topM_round_profiles",
+    "VK.C09_plurality_round_profiles",
 ]
 RULE = ("cases = finished election of any of the 18 rules (as generated for C01; failing constructions are skipped) x a "
         "history of 6-30 queries drawn with repetition from get_profile / get_step / get_elected / get_eliminated / "
